@@ -8,6 +8,7 @@ from vlib.core import b2l, n2l
 def boundary_values(n, rnd, extra):
     l = (len("%x" % n) + 1) // 2
     vals = {0, 1, 127, 128, 255, 256, 257, n - 1, n - 2, n // 2, 2 ** (8 * l - 1), 2 ** (8 * l - 1) - 1,
+            2 ** 1015 - 1, 2 ** 1015, 2 ** 1016 - 1, 2 ** 1016,       # DER content of 127 / 128 octets (huge orders only)
             2 ** (8 * (l - 1)), 2 ** (8 * (l - 1)) - 1, 2 ** (8 * (l - 1) - 1), 2 ** (8 * l - 9)}
     for _ in range(extra):
         vals.add(rnd.randrange(n))
